@@ -150,13 +150,42 @@ def call(case, states=(), form="float"):
     return v, w, extra
 
 
+def call_history(steps, form="float"):
+    """steps: input tuples t_0..t_k, evaluated in this order. Each step is evaluated on fresh Point objects (both
+    argument orders) and then on ONE pair of Point objects that lives through the whole history and is moved in place
+    (p.x = ..., p.y = ...) to the step's centres. -> list of ((v, w), (v', w')) per step."""
+    f, Point = _impl()
+    from frame.geometry.geometry import Rectangle
+    Rectangle.undefine_epsilon()
+
+    def one(*a):
+        try:
+            return f(*a)
+        except Exception as e:  # noqa: BLE001
+            return ("exc", f"{type(e).__name__}: {e}")
+
+    p1 = p2 = None
+    res = []
+    for t in steps:
+        x1, y1, r1, x2, y2, r2 = (int(v) for v in t) if form == "int" and _integral(t) else t
+        fresh = (one(Point(x1, y1), r1, Point(x2, y2), r2), one(Point(x2, y2), r2, Point(x1, y1), r1))
+        if p1 is None:
+            p1, p2 = Point(x1, y1), Point(x2, y2)
+        else:
+            p1.x, p1.y, p2.x, p2.y = x1, y1, x2, y2
+        res.append((fresh, (one(p1, r1, p2, r2), one(p2, r2, p1, r1))))
+    return res
+
+
 def case_tuple(case) -> tuple:
     c = case
     return (float(c["c1"][0]), float(c["c1"][1]), float(c["r1"]), float(c["c2"][0]), float(c["c2"][1]), float(c["r2"]))
 
 
-def case_dict(t, cls="", states=None, form=None) -> dict:
+def case_dict(t, cls="", states=None, form=None, before=None) -> dict:
     d = {"c1": [t[0], t[1]], "r1": t[2], "c2": [t[3], t[4]], "r2": t[5], "cls": cls}
+    if before:
+        d["before"] = [list(b) for b in before]
     if states:
         d["states"] = [list(st) for st in states]
     if form and form != "float":
@@ -173,6 +202,13 @@ def _unres(d, k="v"):
 
 
 def run_impl(case) -> dict:
+    if case.get("before"):
+        # a history: the earlier steps, then this input; observation = this input on fresh objects + every step twice
+        steps = [tuple(float(x) for x in b) for b in case["before"]] + [case_tuple(case)]
+        res = call_history(steps, case.get("form", "float"))
+        (v, w) = res[-1][0]
+        return {"v": _res(v)["v"], "v_exc": _res(v)["v_exc"], "w": _res(w)["v"], "w_exc": _res(w)["v_exc"],
+                "history": [{"fresh": [_res(a[0]), _res(a[1])], "reused": [_res(b[0]), _res(b[1])]} for a, b in res]}
     v, w, extra = call(case_tuple(case), case.get("states") or (), case.get("form", "float"))
     obs = {"v": v if not isinstance(v, tuple) else None, "v_exc": v[1] if isinstance(v, tuple) else None,
            "w": w if not isinstance(w, tuple) else None, "w_exc": w[1] if isinstance(w, tuple) else None}
@@ -277,11 +313,30 @@ def judge_states(t, v, w, states, extra):
     return None
 
 
+def judge_history(steps, res):
+    """Reused, moved-in-place Point objects must give what fresh objects with the same coordinates give."""
+    for i, (t, (fresh, reused)) in enumerate(zip(steps, res)):
+        for side, a, b in (("", fresh[0], reused[0]), (" (arguments swapped)", fresh[1], reused[1])):
+            if _bits(a) != _bits(b):
+                def show(x):
+                    return f"raises {x[1]}" if isinstance(x, tuple) else f"= {x!r}"
+                return "history-dependent", (
+                    f"step {i} of a history of {len(steps)} calls, c1=({t[0]!r}, {t[1]!r}) r1={t[2]!r} c2=({t[3]!r}, "
+                    f"{t[4]!r}) r2={t[5]!r}: f{side} {show(a)} on fresh Point objects but {show(b)} on the two Point "
+                    f"objects of the earlier calls moved in place to these centres")
+    return None
+
+
 def oracle(case, obs):
     t = case_tuple(case)
     v = obs["v"] if obs.get("v_exc") is None else ("exc", obs["v_exc"])
     w = obs["w"] if obs.get("w_exc") is None else ("exc", obs["w_exc"])
     j = judge(t, v, w)
+    if j is None and obs.get("history"):
+        steps = [tuple(float(x) for x in b) for b in case["before"]] + [t]
+        res = [((_unres(h["fresh"][0]), _unres(h["fresh"][1])), (_unres(h["reused"][0]), _unres(h["reused"][1])))
+               for h in obs["history"]]
+        j = judge_history(steps, res)
     if j is None and obs.get("states"):
         extra = [None if e is None else (_unres(e, "v"), _unres(e, "w")) for e in obs["states"]]
         j = judge_states(t, v, w, case.get("states") or [], extra)
@@ -294,6 +349,10 @@ def readable(case) -> str:
         t = tuple(int(v) for v in t)
     x1, y1, r1, x2, y2, r2 = t
     txt = f"c1=({x1!r}, {y1!r}) r1={r1!r} c2=({x2!r}, {y2!r}) r2={r2!r}"
+    if case.get("before"):
+        txt += "; evaluated after the calls " + "; ".join(
+            f"c1=({b[0]!r}, {b[1]!r}) r1={b[2]!r} c2=({b[3]!r}, {b[4]!r}) r2={b[5]!r}" for b in case["before"]) + \
+            " (each on fresh Point objects and on one reused pair moved in place)"
     if case.get("states"):
         txt += "; evaluated first with the Rectangle tolerances undefined, then " + ", then ".join(
             state_text(st) for st in case["states"])
@@ -309,7 +368,7 @@ def fail_entry(case, obs, why, **more) -> dict:
 def failure_key(case, why):
     kind = (why or "").split(":")[0]
     if kind not in ("domain-error", "exception", "non-finite", "negative", "above-small-disc", "asymmetric",
-                    "inaccurate", "state-dependent"):
+                    "inaccurate", "state-dependent", "history-dependent"):
         kind = "disagree"
     return f"C17/{kind}"
 
@@ -591,6 +650,43 @@ def realised(t) -> bool:
 
 
 # --------------------------------------------------------------------------
+# histories: the same two Point objects moved in place from call to call
+# --------------------------------------------------------------------------
+def gen_trajectory(rng, K=6):
+    """A layout-like history: a starting configuration (any class of the float stream, or a coincidence) and K-1
+    follow-ups - a centre moved by a relative step 1e-12..0.05 of the offset (or by an absolute fraction of the radius
+    when the centres coincide), a radius changed, radii or centres exchanged, the first configuration revisited,
+    fresh radii at the same centres."""
+    if rng.random() < 0.3:
+        t0, cls, _ = gen_coincidence_case(rng)
+    else:
+        t0, cls = gen_float_case(rng)
+    steps = [t0]
+    for _ in range(K - 1):
+        x1, y1, r1, x2, y2, r2 = steps[-1]
+        u = rng.choice([1e-12, 1e-9, 1e-6, 1e-3, 0.05]) * rng.choice([-1, 1])
+        dx, dy = (x2 - x1) or r1, (y2 - y1) or (r2 * rng.choice([0, 1]))
+        m = rng.random()
+        if m < 0.3:
+            x2, y2 = x2 + dx * u, y2 + dy * u
+        elif m < 0.45:
+            x1, y1 = x1 - dx * u, y1 + dy * u
+        elif m < 0.6:
+            r2 = r2 * (1 + u)
+        elif m < 0.7:
+            r1, r2 = r2, r1
+        elif m < 0.8:
+            x1, y1, x2, y2 = x2, y2, x1, y1
+        elif m < 0.9:
+            x1, y1, r1, x2, y2, r2 = steps[0]
+        else:
+            s = max(r1, r2)
+            r1, r2 = radius(rng, s), radius(rng, s)
+        steps.append((x1, y1, r1, x2, y2, r2))
+    return steps, "traj:" + cls
+
+
+# --------------------------------------------------------------------------
 # process states for the state runs
 # --------------------------------------------------------------------------
 ABS_EPS = [0.0, 1e-300, 1e-12, 1e-9, 1e-6, 1e-3, 0.3, 1.0, 1e3, 1e12]
@@ -638,6 +734,29 @@ def _explore_chunk(args):
     asym_bits = 0
     nreal = 0
     nstate = 0
+    if mode == "traj":
+        nsteps = 0
+        for _ in range(payload):
+            steps, cls = gen_trajectory(rng)
+            res = call_history(steps)
+            nsteps += len(steps)
+            dist[cls + "/steps"] = dist.get(cls + "/steps", 0) + len(steps)
+            j, at = None, len(steps) - 1
+            for i, (t, (fresh, _r)) in enumerate(zip(steps, res)):
+                seen.add((t, "traj"))
+                j = judge(t, fresh[0], fresh[1])
+                if j:
+                    at = i
+                    break
+            j = j or judge_history(steps, res)
+            if j:
+                if j[0] == "history-dependent":
+                    at = int(j[1].split()[1])
+                nfail[j[0]] = nfail.get(j[0], 0) + 1
+                lst = fails.setdefault(j[0], [])
+                if len(lst) < 3:
+                    lst.append((steps[at], cls, j[1], None, None, None, "float", steps[:at]))
+        return dist, fails, nfail, len(seen), 0, 0, 0, nsteps
     if mode == "float":
         items = ((*gen_float_case(rng), "float") for _ in range(payload))
     elif mode == "coinc":
@@ -660,11 +779,11 @@ def _explore_chunk(args):
             nfail[j[0]] = nfail.get(j[0], 0) + 1
             lst = fails.setdefault(j[0], [])
             if len(lst) < 3:
-                lst.append((t, cls, j[1], repr(v), repr(w), states, form))
-    return dist, fails, nfail, len(seen), asym_bits, nreal, nstate
+                lst.append((t, cls, j[1], repr(v), repr(w), states, form, None))
+    return dist, fails, nfail, len(seen), asym_bits, nreal, nstate, 0
 
 
-def explore(ctx, out, total, n_coinc=0):
+def explore(ctx, out, total, n_coinc=0, n_traj=0):
     nproc = min(14, os.cpu_count() or 2)
     per = 5000
     repo = str(core.REPO)
@@ -681,13 +800,17 @@ def explore(ctx, out, total, n_coinc=0):
         rest = max(0, n_coinc - len(ex))
         for i in range((rest + 2500 - 1) // 2500):
             chunks.append(("coinc", ctx.seed * 1_000_003 + 700_000 + i, min(2500, rest - i * 2500), repo))
+    for i in range((n_traj + 500 - 1) // 500):
+        chunks.append(("traj", ctx.seed * 1_000_003 + 900_000 + i, min(500, n_traj - i * 500), repo))
     with mp.get_context("fork").Pool(nproc) as pool:
         results = pool.map(_explore_chunk, chunks, chunksize=1)
     distinct = 0
+    nsteps = 0
     nfail: dict[str, int] = {}
     collected: dict[str, list] = {}
     asym_bits = nreal = nstate = 0
-    for dist, fails, nf, nd, ab, nr, ns in results:
+    for dist, fails, nf, nd, ab, nr, ns, nst in results:
+        nsteps += nst
         for k, v in dist.items():
             out.count("float:" + k, v)
         distinct += nd
@@ -699,16 +822,18 @@ def explore(ctx, out, total, n_coinc=0):
         for k, lst in fails.items():
             collected.setdefault(k, []).extend(lst)
     n_all = total + n_list + max(0, n_coinc - n_list)
-    out.evaluations += n_all
+    out.evaluations += n_all + nsteps
     out.extra["float_cases"] = n_all
     out.extra["coincidence_cases"] = n_all - total
+    out.extra["histories"] = n_traj
+    out.extra["history_steps"] = nsteps
     out.extra["coincidence_cases_exact_in_binary64"] = nreal
     out.extra["state_runs"] = nstate
     out.extra["float_failures_by_kind"] = nfail
     out.extra["float_results_not_bitwise_symmetric"] = asym_bits
     for kind in sorted(collected):
-        t, cls, why, v, w, states, form = collected[kind][0]
-        case = case_dict(t, cls, states if kind == "state-dependent" else None, form)
+        t, cls, why, v, w, states, form, before = collected[kind][0]
+        case = case_dict(t, cls, states if kind == "state-dependent" else None, form, before)
         small, obs, why2 = shrink_case(case, kind)
         entry = fail_entry(small, obs, why2, count_in_this_run=nfail[kind])
         if small != case:
@@ -731,6 +856,13 @@ def shrink(case):
     x1, y1, r1, x2, y2, r2 = case_tuple(case)
     cls = case.get("cls", "")
     states, form = case.get("states"), case.get("form")
+    before = case.get("before")
+    if before:
+        # shorter histories first; the other shrinking steps would change the relation between the steps
+        yield case_dict((x1, y1, r1, x2, y2, r2), cls, states, form)
+        for i in range(len(before)):
+            yield case_dict((x1, y1, r1, x2, y2, r2), cls, states, form, before[:i] + before[i + 1:])
+        return
     if states and len(states) > 1:
         for st in states:
             yield case_dict((x1, y1, r1, x2, y2, r2), cls, [st], form)
@@ -942,6 +1074,7 @@ def run(ctx, out, replay=None):
     n_proof_coinc = 6 if quick else 60
     n_float = 120_000 if quick else 4_000_000
     n_coinc = 24_000 if quick else 400_000
+    n_traj = 2_000 if quick else 40_000
     out.rule = (
         "two streams. (1) proof stream: random discs (radii 1e-3..1e6, mantissas of 6..52 bits; generic and axis-aligned "
         "centres; lens / near-tangent (relative gap 1e-4..1e-2) / far / nested / equal / concentric / decimal inputs); for "
@@ -964,6 +1097,10 @@ def run(ctx, out, replay=None):
         "of the larger radius), ordinary / absolute, large (1..1e6 radii), via set_epsilon(e), set_epsilon(e, a) or "
         "a Die loaded while they are undefined - and finally undefined again; each result must equal the first "
         "evaluation bit for bit (kind state-dependent). "
+        "(5) histories (float:traj:*): 6 related configurations in a row (a centre moved by a relative step 1e-12..0.05, "
+        "a radius changed, radii / centres exchanged, the first configuration revisited, fresh radii), each evaluated "
+        "on fresh Point objects (judged by the oracle) and on one pair of Point objects moved in place from step to "
+        "step; the two must agree bit for bit (kind history-dependent). "
         "distinct = distinct input tuples; all cases are non-trivial (each has its own radii and distance)")
     # ---- corpus / replay first: through impl + oracle + proof
     first = []
@@ -1006,7 +1143,7 @@ def run(ctx, out, replay=None):
     out.extra["interval_goals_proved"] = len(proof_cases) - nbad
     out.extra["model_impl_agreements"] = len(proof_cases) - nbad
     # ---- float exploration
-    n_distinct_float = explore(ctx, out, n_float, n_coinc)
+    n_distinct_float = explore(ctx, out, n_float, n_coinc, n_traj)
     base = len(out.distinct)
 
     class _Count:
@@ -1022,4 +1159,4 @@ def run_oracle_only(ctx, out):
         why = oracle(case, obs)
         if why:
             out.failures.append(fail_entry(case, obs, why))
-    explore(ctx, out, 50_000, 10_000)
+    explore(ctx, out, 50_000, 10_000, 500)
